@@ -1970,15 +1970,19 @@ where
                 N
             };
 
-            let (right, left) = self.slices_uninit_mut();
+            let (right, _) = self.slices_uninit_mut();
 
             let write_len = core::cmp::min(right.len(), other.len());
             #[cfg(feature = "unstable")]
             right[..write_len].write_clone_of_slice(&other[..write_len]);
             #[cfg(not(feature = "unstable"))]
             write_uninit_slice_cloned(&mut right[..write_len], &other[..write_len]);
+            // The elements written so far are now part of the buffer: if cloning the remaining
+            // ones panics, they get dropped along with the buffer instead of being leaked
+            self.size += write_len;
 
             let other = &other[write_len..];
+            let (left, _) = self.slices_uninit_mut();
             debug_assert!(left.len() >= other.len());
             let write_len = other.len();
             #[cfg(feature = "unstable")]
@@ -1986,7 +1990,8 @@ where
             #[cfg(not(feature = "unstable"))]
             write_uninit_slice_cloned(&mut left[..write_len], other);
 
-            self.size = final_size;
+            self.size += write_len;
+            debug_assert_eq!(self.size, final_size);
         } else {
             // `other` overwrites the whole buffer; get only the last `N` elements from `other` and
             // overwrite
